@@ -7,6 +7,7 @@ import Proofs.RT.Top
 import Proofs.LRT.Bool
 import Proofs.C03.FoldValue
 import Proofs.MRT.Spell
+import Proofs.Typst.ValueInj
 set_option autoImplicit false
 
 namespace Narsese.Driver
@@ -307,6 +308,10 @@ def exec (op fmt payload : String) : Except String String := do
     let sugar := op == "spellC" || op == "spellD"
     let sv := spell F σ sugar v
     pure s!"h {bit (spellOK F L sv v)} {hs (svalTxt F sv)} ok {showNarsese .canon v}"
+  | "c16hyp" =>
+    -- model-only: is the value well-formed for the Typst injectivity theorem (`Props/C16b.lean`)?
+    let v ← runRd rdNarsese payload
+    pure s!"h {bit (wfTyN Gen.typstC v)} 1 s {hs (typstN Gen.typstC v)}"
   | "numok" =>
     -- is this (bits, text) pair what the model requires of a printed number?
     let x ← runRd rdNum payload
